@@ -98,9 +98,27 @@ def run(prog: Program, res: Result, tier: str) -> None:
         covered: dict[str, str] = {}
         problems: dict[str, str] = {}
         struct_calls = []
+        from ..core import unroll_literal_loops, FuncInfo
+        chain = [FuncInfo(f.qual, f.module, unroll_literal_loops(f.node), f.cls)
+                 for f in chain]
         for fi in chain:
             selfn = fi.params()[0]
             du = DefUse(fi.node)
+            # entries filtered out before a REPLACING setter are lost
+            for node in ast.walk(fi.node):
+                if isinstance(node, ast.DictComp) and any(
+                        "invert" in norm(v) for v in (node.value,)):
+                    for g in node.generators:
+                        for c in g.ifs:
+                            t = norm(c)
+                            if ".parity" in t or "isinstance" in t:
+                                problems["_atom_stereo_change"] = problems[
+                                    "_bond_stereo_change"] = (
+                                    f"`if {t}` drops entries of a change "
+                                    "dictionary before set_*_stereo_change "
+                                    "replaces the whole dictionary: achiral / "
+                                    "unspecified descriptors of a mixed "
+                                    "change are lost")
             for slot, vals, node, recv in writes_in(fi, selfn):
                 if recv == selfn:
                     continue        # reported by R-DERIVE-PURE
